@@ -159,17 +159,18 @@ type Options struct {
 // Ref is a running reference server.
 type Ref struct {
 	*kit.Srv
-	Loader   *loader.Loader
-	Sink     *Sink
-	Keys     *KeyStore
-	Src      *Source
-	YAML     *yamlloader.YAML
-	JSON     *jsonloader.JSON
-	Ctx      context.Context
-	cancel   context.CancelFunc
-	srcChan  chan config.ServerConfig // the source's channel
-	fwdChan  chan config.ServerConfig // the interposer's output channel (if any)
-	inFlight int32                    // configurations inside the interposer
+	Loader    *loader.Loader
+	Sink      *Sink
+	Keys      *KeyStore
+	Src       *Source
+	YAML      *yamlloader.YAML
+	JSON      *jsonloader.JSON
+	Ctx       context.Context
+	cancel    context.CancelFunc
+	srcChan   chan config.ServerConfig // the source's channel
+	fwdChan   chan config.ServerConfig // the interposer's output channel (if any)
+	sent      int32                    // configurations handed to the source (interposed sources only)
+	delivered int32                    // configurations the loader goroutine has received from the interposer
 	// LoadedUpdates counts the loader's "updated all prefix filters" messages.
 	loadedMu sync.Mutex
 	loaded   int
@@ -244,7 +245,6 @@ func Start(cfg config.ServerConfig, opt Options) (*Ref, error) {
 		mid := make(chan config.ServerConfig)
 		go func() {
 			for c := range r.srcChan {
-				atomic.AddInt32(&r.inFlight, 1)
 				mid <- c
 			}
 		}()
@@ -253,7 +253,7 @@ func Start(cfg config.ServerConfig, opt Options) (*Ref, error) {
 		go func() {
 			for c := range out {
 				fwd <- c
-				atomic.AddInt32(&r.inFlight, -1)
+				atomic.AddInt32(&r.delivered, 1)
 			}
 		}()
 		r.fwdChan = fwd
@@ -296,20 +296,25 @@ func (r *Ref) Publish(cfg config.ServerConfig) error {
 	r.loadedMu.Lock()
 	before := r.loaded
 	r.loadedMu.Unlock()
+	atomic.AddInt32(&r.sent, 1)
 	if r.JSON != nil {
 		doc, err := json.Marshal(cfg)
 		if err != nil {
+			atomic.AddInt32(&r.sent, -1)
 			return err
 		}
 		if err := r.JSON.Unmarshal(doc); err != nil {
+			atomic.AddInt32(&r.sent, -1)
 			return fmt.Errorf("json loader refused the configuration: %w", err)
 		}
 	} else if r.YAML != nil {
 		doc, err := yaml.Marshal(cfg)
 		if err != nil {
+			atomic.AddInt32(&r.sent, -1)
 			return err
 		}
 		if err := r.YAML.Unmarshal(doc); err != nil {
+			atomic.AddInt32(&r.sent, -1)
 			return fmt.Errorf("yaml loader refused the configuration: %w", err)
 		}
 	} else {
@@ -327,7 +332,11 @@ func (r *Ref) Publish(cfg config.ServerConfig) error {
 func (r *Ref) waitLoaded(before int) {
 	deadline := time.Now().Add(30 * time.Second)
 	for time.Now().Before(deadline) {
-		if len(r.srcChan) == 0 && (r.fwdChan == nil || len(r.fwdChan) == 0) && atomic.LoadInt32(&r.inFlight) == 0 {
+		if r.fwdChan == nil {
+			if len(r.srcChan) == 0 {
+				break
+			}
+		} else if atomic.LoadInt32(&r.delivered) == atomic.LoadInt32(&r.sent) {
 			break
 		}
 		time.Sleep(50 * time.Microsecond)
@@ -342,6 +351,7 @@ func (r *Ref) PublishDoc(doc []byte) error {
 	before := r.loaded
 	r.loadedMu.Unlock()
 	var err error
+	atomic.AddInt32(&r.sent, 1)
 	switch {
 	case r.JSON != nil:
 		err = r.JSON.Unmarshal(doc)
@@ -351,6 +361,7 @@ func (r *Ref) PublishDoc(doc []byte) error {
 		return fmt.Errorf("PublishDoc needs ViaYAML or ViaJSON")
 	}
 	if err != nil {
+		atomic.AddInt32(&r.sent, -1)
 		return err
 	}
 	r.waitLoaded(before)
